@@ -21,15 +21,16 @@ its source).
 import sys, os, gc, weakref, array
 from vlib import core
 
-RULE = ("case = one history of 40 random operations over up to ~12 live objects: ffi.new structs/"
+RULE = ("case = one history of 50 random operations over up to ~12 live objects: ffi.new structs/"
         "unions/variable-sized structs/arrays (3 entry points), p[0] aliases (also of allocator "
         "structs), ffi.gc wrappers of every kind of cdata (also of wrappers; destructors: plain, "
         "cyclic, raising, re-entering release/gc(None)/with), ffi.gc(w, None) (also after "
         "release), ffi.release / with / with+exception / __exit__ (3 entry points), "
         "new_allocator allocations (python alloc+free, alloc only, default, C-callback "
-        "malloc/free; should_clear on/off; with initialisers), failing allocations (alloc "
+        "malloc/free; should_clear on/off; with initialisers), ffi.gc(lib.malloc(n), <C function>), "
+        "failing allocations (alloc "
         "returns None / non-pointer / NULL / raises; initialiser fails after alloc), from_buffer "
-        "on bytearray / array.array / memoryview / counting __buffer__ exporters (typed, "
+        "on bytearray / array.array / memoryview / ffi.buffer() / counting __buffer__ exporters (typed, "
         "require_writable, shared sources, sources kept alive only by cffi, cycles source->cdata), "
         "failing from_buffer (too small, zero-sized items, not a pointer type, read-only, str, no "
         "buffer), handles (3 entry points, shared objects, objects kept alive only by the handle, "
@@ -38,15 +39,17 @@ RULE = ("case = one history of 40 random operations over up to ~12 live objects:
         "model state summary) tuples; non-trivial = every operation except a plain gc.collect()")
 ASSUMPTIONS = ["reachability is modelled from the references the harness itself holds (names) plus cffi's documented keep-alive edges (alias -> owner, gc wrapper -> original, from_buffer -> source, handle -> object)",
                "CPython reference counting: an unreachable acyclic object is finalized at once, a cyclic one at the next gc.collect()",
-               "new_allocator()('struct *') behaves like ffi.new('struct *'): p[0] keeps the allocation alive"]
+               "new_allocator()('struct *') behaves like ffi.new('struct *'): p[0] keeps the allocation alive",
+               "a handle owns one reference to its object for exactly its own lifetime (the object is neither freed before nor kept after the handle)",
+               "destructors that run inside a collection may find the other objects of the same garbage already finalized (memory is read inside a destructor only outside collections)"]
 
 
 def generate(ctx):
     rng = ctx.rng('gen')
-    nh = ctx.scale(500, 30000)
+    nh = ctx.scale(1600, 60000)
     per = 100
     seeds = [rng.getrandbits(48) for _ in range(nh)]
-    return None, [{'seeds': seeds[i:i + per], 'ops': 40} for i in range(0, nh, per)]
+    return None, [{'seeds': seeds[i:i + per], 'ops': 50} for i in range(0, nh, per)]
 
 
 CDEF = """
@@ -90,6 +93,11 @@ def child_setup(setup, wd):
     def cb_free(p):
         st['cur'].cb_free(p)
     st['cb_alloc'], st['cb_free'] = cb_alloc, cb_free
+    # everything that exists now (interpreter, modules, cffi types) is exempt
+    # from the collections: a gc.collect() per step then only looks at the
+    # objects of the histories
+    gc.collect()
+    gc.freeze()
     return st
 
 
@@ -108,6 +116,9 @@ class PyO(object):
 
 class Exp(object):
     """buffer exporter that counts acquisitions and releases"""
+    # slots: a collection must not empty the exporter before its buffer is released
+    __slots__ = ('ba', 'counts', 'readonly', 'cdata', '__weakref__')
+
     def __init__(self, data, counts, readonly=False):
         self.ba = bytearray(data)
         self.counts = counts        # [acquired, released]
@@ -154,6 +165,7 @@ class Src(object):
         self.content = b''
         self.cyclic = False
         self.readonly = False
+        self.nolock = False
         self.done = False
 
 
@@ -427,8 +439,8 @@ class H(object):
         rnd, ffi, B, cf = self.rnd, self.ffi, self.B, self.cf
         op = rnd.choice(['new', 'new', 'alias', 'gcwrap', 'gcwrap', 'gcchain', 'gcchain', 'gcnone',
                          'release', 'release', 'with', 'drop', 'drop', 'drop', 'drop', 'collect',
-                         'alloc', 'alloc', 'alloc_fail', 'frombuf', 'frombuf', 'frombuf_fail',
-                         'resize', 'handle', 'handle', 'fromhandle', 'rerelease',
+                         'alloc', 'alloc', 'alloc_fail', 'gcmalloc', 'frombuf', 'frombuf',
+                         'frombuf_fail', 'resize', 'handle', 'handle', 'fromhandle', 'rerelease',
                          'useafter', 'useafter'])
         key = (op,)
         if op == 'new':
@@ -455,7 +467,15 @@ class H(object):
             o.base = b
             o.root = b.root
             o.isstruct = True
-            key = (op, b.kind)
+            del real
+            dropped = rnd.random() < 0.4
+            if dropped:
+                # "q = ffi.new('struct *')[0]": the owner goes away at once
+                b.named = False
+                del self.refs[b.oid]
+                self.after_drop()
+                self.rep.stat('alias_then_owner_dropped')
+            key = (op, b.kind, dropped)
             self.rep.stat('alias_of_' + b.kind)
         elif op in ('gcwrap', 'gcchain'):
             b = self.pick(('own_struct', 'own_array', 'alloc_struct', 'alloc_array', 'gcwrapper',
@@ -509,10 +529,12 @@ class H(object):
                 else:
                     B.gcp(self.refs[w.oid], None)
             except Exception as e:
-                self.bad('gc-none-raised', 'ffi.gc(w, None) on a %s wrapper raised %s: %s' %
-                         ('released' if w.released else 'live', type(e).__name__, e))
-            if not w.dcount:
-                w.destructor = 'off'
+                # not demanded by the property (it only says what must not run
+                # afterwards): counted, not judged
+                self.rep.stat('gcnone_raised')
+            else:
+                if not w.dcount:
+                    w.destructor = 'off'
             key = (op, w.released, via)
             self.rep.stat('gcnone_on_released' if w.released else 'gcnone_on_live')
         elif op in ('release', 'with', 'rerelease'):
@@ -626,7 +648,7 @@ class H(object):
                 else:
                     self.by_aid[o.aid] = o
             o.T = T
-            if init is None and k:
+            if (init is None or T == 'int[]') and k:      # nothing was written yet
                 b = bytes(ffi.buffer(ffi.cast('char *', real), k))
                 if clear and b.strip(b'\0'):
                     self.bad('allocator-not-cleared', 'should_clear_after_alloc=True but memory is '
@@ -637,6 +659,29 @@ class H(object):
             self.stamp(o, k)
             key = (op, flavour, T, clear, init is not None)
             self.rep.stat('alloc_' + flavour)
+        elif op == 'gcmalloc':
+            # the classic: ffi.gc(lib.malloc(n), <C function>) -- the destructor
+            # is a C function pointer (a counting callback, or free() itself)
+            k = rnd.choice([1, 8, 24, 100])
+            counted = rnd.random() < 0.7
+            self.st['cur'] = self
+            raw = ffi.cast(rnd.choice(['char *', 'int *', 'struct s *']), self.lib.malloc(k))
+            via = rnd.choice(['api', 'cf', 'backend'])
+            gcf = {'api': ffi.gc, 'cf': cf.gc, 'backend': B.gcp}[via]
+            if counted:
+                aid = self.register_alloc(int(ffi.cast('uintptr_t', raw)))
+                real = gcf(raw, self.st['cb_free'])
+                o = self.new_obj('alloc_array', real)
+                o.aid, o.nofree, o.flavour = aid, False, 'gc-malloc'
+                self.by_aid[aid] = o
+            else:
+                real = gcf(raw, self.lib.free)
+                o = self.new_obj('own_array', real)
+            del raw
+            o.T = 'malloc'
+            self.stamp(o, k)
+            key = (op, counted, via)
+            self.rep.stat('gcmalloc_counted' if counted else 'gcmalloc_free')
         elif op == 'alloc_fail':
             # a failing allocation: the free function runs once if (and only if)
             # the alloc function had already handed out memory
@@ -751,7 +796,13 @@ class H(object):
                 hold.h = h
                 hold.c = ffi.cast('char *', h)
                 h = hold.h if via == 'field-voidp' else hold.c
-            got = {'api': ffi.from_handle, 'cf': cf.from_handle, 'backend': B.from_handle}[entry](h)
+            try:
+                got = {'api': ffi.from_handle, 'cf': cf.from_handle,
+                       'backend': B.from_handle}[entry](h)
+            except Exception as e:
+                self.bad('from_handle-raised', 'from_handle(<live handle as %s>) raised %s: %s' %
+                         (via, type(e).__name__, e))
+                return key
             if got is not want:
                 self.bad('from_handle-wrong-object', 'from_handle returned %r, not the object '
                          'given to new_handle' % (got,))
@@ -762,10 +813,17 @@ class H(object):
             c = [o for o in self.objs.values() if o.named and self.mem_valid(o)]
             if not c:
                 return ('useafter-skip',)
-            a = rnd.choice(c)
+            # half of the time: an accessor that alone keeps the memory alive
+            # (owner dropped / source referenced by nobody else)
+            c2 = [o for o in c if (o.root.src.strong is None if o.root.kind == 'frombuf'
+                                   else not o.root.named)]
+            a = rnd.choice(c2 if c2 and rnd.random() < 0.5 else c)
             real = self.refs[a.oid]
             got = self.read_mem(a, real)
-            owner = 'named' if a.root.named else 'dropped'
+            if a.root.kind == 'frombuf':
+                owner = 'source-held' if a.root.src.strong is not None else 'source-unheld'
+            else:
+                owner = 'named' if a.root.named else 'dropped'
             if got != a.root.stamp:
                 self.bad('alias-memory-changed' if a.kind == 'alias' else 'memory-changed',
                          'memory read through %s %d = %s, owner %s %d was stamped %s (owner %s)' %
@@ -784,9 +842,9 @@ class H(object):
     FB_TYPES = [None, None, 'char[]', 'unsigned char[]', 'int[]', 'short[3]', 'char[16]',
                 'struct s *', 'int *', 'long long[2]']
 
-    def make_source(self):
+    def make_source(self, flavour=None):
         rnd = self.rnd
-        flavour = rnd.choice(['ba', 'ba', 'exp', 'exp', 'array', 'mv', 'exp-ro', 'mv-ro'])
+        flavour = flavour or rnd.choice(['ba', 'ba', 'exp', 'exp', 'array', 'mv', 'exp-ro', 'mv-ro', 'minibuf'])
         n = rnd.choice([16, 17, 24, 40])
         data = bytes(rnd.getrandbits(8) for _ in range(n))
         s = Src(flavour)
@@ -795,6 +853,14 @@ class H(object):
             x = BA(data)
         elif flavour == 'array':
             x = AR('b', data)
+        elif flavour == 'minibuf':
+            # ffi.buffer() of an owned array that nothing else references: no
+            # lock to observe, but the chain cdata -> buffer -> array must hold
+            c = self.ffi.new('char[]', n)
+            x = self.ffi.buffer(c)
+            x[:] = data
+            del c
+            s.nolock = True
         elif flavour.startswith('mv'):
             s.lockobj = bytearray(data)
             x = memoryview(s.lockobj)
@@ -850,7 +916,7 @@ class H(object):
         s.users.append(o)
         if shape == 'fresh':
             keep = rnd.choice(['held', 'unheld', 'cyclic'])
-            if keep == 'cyclic' and s.flavour.startswith('mv'):
+            if keep == 'cyclic' and (s.flavour.startswith('mv') or s.flavour == 'minibuf'):
                 keep = 'unheld'
             if keep == 'cyclic':
                 x.cdata = real            # cycle source -> cdata -> source
@@ -884,10 +950,13 @@ class H(object):
         elif mode == 'no-buffer':
             x, T = object(), 'char[]'
         else:
+            if mode == 'readonly':
+                c = [s for s in c if s.readonly]
             if c and rnd.random() < 0.4:
                 s = rnd.choice(c)
             else:
-                s = self.make_source()
+                s = self.make_source(rnd.choice(['exp-ro', 'mv-ro']) if mode == 'readonly'
+                                     else None)
                 fresh = True
             x = s.strong
             if mode == 'too-small':
@@ -899,14 +968,8 @@ class H(object):
             elif mode == 'not-pointer':
                 T = rnd.choice(['int', 'struct s'])
             else:
-                if not s.readonly:
-                    # nothing to fail on: a writable source
-                    mode = 'too-small'
-                    T = 'int[64]'
-                    acquired = True
-                else:
-                    T = 'char[]'
-                    rw = True
+                T = rnd.choice(['char[]', 'int[]', 'struct s *'])
+                rw = True
         via = rnd.choice(['api', 'cf', 'backend'])
         if mode in ('str', 'no-buffer') and rnd.random() < 0.5:
             via, T = 'api1', None
@@ -962,7 +1025,7 @@ class H(object):
                      'after every cdata made from it was released or collected' % s.flavour)
             s.done = True
             return
-        if locked_must or unlocked_must:
+        if (locked_must or unlocked_must) and not s.nolock:
             worked = self.probe_lock(s)
             if worked and locked_must:
                 self.bad('export-lock-released-early', 'resizing the from_buffer source (%s) %s: '
